@@ -159,7 +159,11 @@ class OpenDocument:
         self.topnode.addElement(self.body)
 
     def rebuild_caches(self, node=None):
-        if node is None: node = self.topnode
+        if node is None:
+            # a rebuild from the top starts from empty indexes, or every element would be listed again
+            node = self.topnode
+            self.element_dict = {}
+            self._styles_dict = {}
         self.build_caches(node)
         for e in node.childNodes:
             if e.nodeType == element.Node.ELEMENT_NODE:
